@@ -31,6 +31,7 @@ def run(ctx):
     ev = translate.make_evaluator(irall)
     tie = {"effective_sample_size(log_weights)": [True, ""], "current_target_efficiency": [True, ""]}
     nsteps = 0
+    nmono = 0
     # populations in single precision with a stated tolerance far below float32's epsilon: the temperature is a Python float, so the
     # stated tolerance (not the resolution of the weights) bounds how much of an admissible step may be given away
     f32 = []
@@ -94,6 +95,19 @@ def run(ctx):
             elif not floor_forced and beta_prev + ms < 1.0:
                 if eff(1.0) < target - slack and (1.0 - beta_prev) > tol:
                     ctx.violation(f"full-step-misses-target:{cfg['seed']}:{t}", f"jumped to 1 with ESS/N {eff(1.0)} < target {target}", case)
+            # --- the curve the search queries is non-increasing in the temperature (C07_code_curve_nonincreasing), on the implementation
+            if t < 3 and not single:
+                try:
+                    from aspire.utils import effective_sample_size as _ess
+                    grid = [beta_prev + (1.0 - beta_prev) * f for f in (0.0, 1e-6, 1e-3, 0.03, 0.25, 0.6, 1.0)]
+                    vals = [nsutil.to_float(_ess(pop.log_weights(b))) / N for b in grid]
+                    nmono += 1
+                    for (b1, v1), (b2, v2) in zip(zip(grid, vals), zip(grid[1:], vals[1:])):
+                        if v2 > v1 * (1 + 1e-7) + 1e-12:
+                            ctx.violation(f"curve-not-monotone:{cfg['seed']}:{t}", f"ESS/N rises from {v1} at beta={b1} to {v2} at beta={b2}", dict(case, grid=grid, eff=vals))
+                            break
+                except Exception as e:
+                    ctx.violation(f"curve-raises:{cfg['seed']}:{t}", f"efficiency curve raised {e!r}", case)
             # --- tie: translated kernels vs implementation on this population
             if irall and t < 3 and not single:
                 try:
@@ -118,3 +132,4 @@ def run(ctx):
     for k, (ok, d) in tie.items():
         ctx.oblig(f"correspondence:IR-vs-impl:{k}", ok and bool(irall), d)
     ctx.extra["steps_checked"] = nsteps
+    ctx.extra["populations_probed_for_monotone_curve"] = nmono
